@@ -109,6 +109,9 @@ int CVodeReInit(void *, realtype t0, N_Vector y0) {
 // the generated right-hand side and Jacobian are not exercised by the mock
 int Fex(realtype, N_Vector, N_Vector, void *) { return 0; }
 int Jac(realtype, N_Vector, N_Vector, SUNMatrix, void *, N_Vector, N_Vector, N_Vector) { return 0; }
+#ifdef MOCK_CUDA
+int InitJac(SUNMatrix) { return 0; }      // cuSPARSE variant: the pattern is not exercised by the mock either
+#endif
 
 #ifndef MOCK_NO_MAIN
 int main(int argc, char **argv) {
